@@ -89,7 +89,7 @@ def compare_step(part, spec, exp, b, a, parents=frozenset(), children=frozenset(
 
 def check_run(spec, part="discard"):
     algo = spec["algo"]
-    labels = ["algo=" + algo, "source=" + spec.get("source", "real"), "conf=" + ha.conf_type(spec)] + (["far-from-origin"] if spec.get("y_offset") else [])
+    labels = ["algo=" + algo, "source=" + spec.get("source", "real"), "conf=" + ha.conf_type(spec)] + (["far-from-origin"] if spec.get("y_offset") else []) + (["small-scale"] if spec.get("unit") else [])
     alg, ctx = ha.build(spec)
     steps = 0
     nt = False
